@@ -37,6 +37,9 @@ def eprog(prog, theta):
                 c1 += f" + (if b{j} then {qc(wt)} else 0)"
             if lf["x"] and len(sites) >= 2:
                 c0 += f" + (if b0 && b1 then {qc(lf['x'])} else 0)"
+            if prog.get("tail"):
+                # a sampled site of negligible scale located at m1 / m0 by the outer outcome: its value, to 1e-5
+                c0 += f" + (if b0 then {qc(prog['tail']['m1'])} else {qc(prog['tail']['m0'])})"
             return f"(ERet (({c0})%Qc, ({c1})%Qc))"
         s = sites[i]
         p0 = f"{qc(s['a'])} + {qc(s['b'])} * {qc(theta)} * {qc(0.25)}"
